@@ -290,6 +290,9 @@ func createVectorImageFunctions(cdata ImageMap) { //nolint:funlen // this is a g
 			if !ok {
 				return object.Errorf("image %q not found", args[0].(object.String).Value)
 			}
+			if oerr := checkCoords(args[1:]); oerr != nil {
+				return *oerr
+			}
 			x := int(args[1].(object.Float).Value)
 			y := int(args[2].(object.Float).Value)
 			img.Vect.MoveTo(float32(x), float32(y))
@@ -305,6 +308,9 @@ func createVectorImageFunctions(cdata ImageMap) { //nolint:funlen // this is a g
 		img, ok := images[args[0]]
 		if !ok {
 			return object.Errorf("image %q not found", args[0].(object.String).Value)
+		}
+		if oerr := checkCoords(args[1:]); oerr != nil {
+			return *oerr
 		}
 		x := int(args[1].(object.Float).Value)
 		y := int(args[2].(object.Float).Value)
@@ -394,6 +400,9 @@ func createVectorImageFunctions(cdata ImageMap) { //nolint:funlen // this is a g
 		if !ok {
 			return object.Errorf("image %q not found", args[0].(object.String).Value)
 		}
+		if oerr := checkCoords(args[1:]); oerr != nil {
+			return *oerr
+		}
 		x1 := int(args[1].(object.Float).Value)
 		y1 := int(args[2].(object.Float).Value)
 		x2 := int(args[3].(object.Float).Value)
@@ -415,6 +424,9 @@ func createVectorImageFunctions(cdata ImageMap) { //nolint:funlen // this is a g
 		if !ok {
 			return object.Errorf("image %q not found", args[0].(object.String).Value)
 		}
+		if oerr := checkCoords(args[1:]); oerr != nil {
+			return *oerr
+		}
 		x1 := int(args[1].(object.Float).Value)
 		y1 := int(args[2].(object.Float).Value)
 		x2 := int(args[3].(object.Float).Value)
@@ -423,6 +435,21 @@ func createVectorImageFunctions(cdata ImageMap) { //nolint:funlen // this is a g
 		return args[0]
 	}
 	MustCreate(imgFn)
+}
+
+// maxCoord bounds the path coordinates: beyond 2^22 (and for NaN/Inf) the fixed point rasterizer
+// of golang.org/x/image/vector divides by zero.
+const maxCoord = 1 << 20
+
+// checkCoords validates the float arguments of a path function.
+func checkCoords(args []object.Object) *object.Error {
+	for _, a := range args {
+		v := a.(object.Float).Value
+		if !(v > -maxCoord && v < maxCoord) { // also false for NaN.
+			return object.Errorfp("coordinate out of range: %v", v)
+		}
+	}
+	return nil
 }
 
 func mergeAdd(img1, img2 *image.NRGBA) {
